@@ -111,6 +111,8 @@ def t2_cddl(t):
 
 def ty_cddl(t):
     k = t[0]
+    if k == "paren":
+        return "(" + ty_cddl(t[1]) + ")"
     if k == "any":
         return "#"
     if k == "major":
@@ -238,6 +240,8 @@ def lit_sexp(l):
 
 def ty_sexp(S, t):
     k = t[0]
+    if k == "paren":
+        return ty_sexp(S, t[1])
     if k == "any":
         return "any"
     if k == "major":
@@ -326,6 +330,8 @@ def lit_coq(l):
 
 def ty_coq(S, t):
     k = t[0]
+    if k == "paren":
+        return ty_coq(S, t[1])
     if k == "any":
         return "TAny"
     if k == "major":
